@@ -199,7 +199,11 @@ class Driver:
             r = np.random.RandomState(2000 + a[0])
             data = np.zeros(len(nt), dtype=object)
             for k, n in enumerate(nt):
-                data[k] = _gint(r, n, 3)
+                blk = _gint(r, n, 3)
+                # memory layout of the caller's data must not matter: C order, Fortran order, transposed view
+                form = (self.rng.randint(0, 3) + k) % 3
+                data[k] = blk if form == 0 else (np.asfortranarray(blk) if form == 1 else np.ascontiguousarray(blk.T).T)
+            before = [np.array(d) for d in data]
             if self.ext:
                 ed = np.zeros(len(nte), dtype=object)
                 for k, n in enumerate(nte):
@@ -209,6 +213,9 @@ class Driver:
             else:
                 out = o.corrupt_data(data)
                 x = np.vstack(list(data))
+            if any(not np.array_equal(b, d) for b, d in zip(before, data)):
+                return ("error", "corrupt_data changed the caller's transmit data")
+            x = np.vstack([b for b in before] + ([np.array(d) for d in ed] if self.ext else []))
             return ("rx", (out, x, o.last_noise))
         raise ValueError(op)
 
